@@ -87,7 +87,7 @@ def model_view(ck, case, k, module="Corr.SyncCorr", view="model_view"):
         if idx < 0:
             return None
         case = {"coq": case["coq"][idx]}
-    return corr.eval_term(ck.prop + "-mv", module, "%s %s %d%%nat" % (view, g(case["coq"]), max(k - 1, 0)))
+    return corr.eval_term(ck.prop + "-mv", module, "%s %s %d%%%s" % (view, g(case["coq"]), max(k - 1, 0), "N" if view.endswith("_N") else "nat"))
 
 
 def triage(ck, fam, cases, verdicts, wfs, clause, nontrivial, oracle_ok=lambda c: c["oracle"]["ok"],
